@@ -79,3 +79,27 @@ func verif_TunnelServer_Run(s *TunnelServer) {
 		_ = msg.ClientSpec{}
 	}
 }
+
+// The gateway's public-key check (C04: "the ssh tunnel gateway waives the token
+// check only for peers the ssh handshake authenticated"): every handshake is
+// judged against the authorized-keys file as it is at that moment - the file is
+// read inside the callback, so a key removed from it is refused from the next
+// handshake on - and a key passes only if that reading lists it; when the file
+// cannot be read nobody passes.
+//
+//verif:contract ~/pkg/ssh.NewGateway$1
+//verif:props C04
+//verif:kinds post,pre
+func verif_gateway_public_key_check(conn ssh.ConnMetadata, key ssh.PublicKey) {
+	verif.ResetEvents()
+	perm, err := verif.CallTargetR2[*ssh.Permissions, error](conn, key)
+	const evLoad = "ssh.loadAuthorizedKeysFromFile"
+	verif.Ensures(verif.CallCount(evLoad) == 1, "authorized_keys_read_for_this_handshake")
+	if verif.RetErr(evLoad, 1) != nil {
+		verif.Ensures(err != nil && perm == nil, "unreadable_key_file_admits_nobody")
+	}
+	if err == nil {
+		keys := verif.Ret[map[string]string](evLoad, 0)
+		verif.Ensures(perm != nil && verif.Has(keys, string(verif.Ret[[]byte]("PublicKey).Marshal", 0))), "only_a_listed_key_passes")
+	}
+}
